@@ -36,7 +36,8 @@ def withProgram (sexp : String) (f : Program → String) : String :=
 /-- answer tag of a successful emission: the theorems about emitted scripts assume `wfStmts` of the
     AST, so an AST that is not well-formed is reported (it shows up as a correspondence break) -/
 def wfTag (p : Program) : String :=
-  if !wfStmts p then "NOTWF " else if !typedProgram p then "ILLTYPED " else "OK "
+  if !wfStmts p then "NOTWF " else if !typedProgram p then "ILLTYPED "
+  else if !placedStmts { brkAnywhere := true } p then "MISPLACED " else "OK "
 
 def handleBash (sexp : String) : String :=
   withProgram sexp fun p =>
